@@ -88,7 +88,7 @@ def replay_usage(ck, m, st, inp, cmd, j, s):
 def hit_empty_reset(s):
     """the "store is empty" branch of the sweep: a map.len immediately followed by an atomic.fetch_sub"""
     ev = [e[0] for e in s.events]
-    return any(a == 'map.len' and b == 'atomic.fetch_sub' for a, b in zip(ev, ev[1:]))
+    return any(a == 'map.len' and b in ('atomic.fetch_sub', 'atomic.store') for a, b in zip(ev, ev[1:]))
 
 
 def c15_regions(cmd, j, st, inp, s):
@@ -98,7 +98,7 @@ def c15_regions(cmd, j, st, inp, s):
     hit_empty_reset = z3.BoolVal(False)
     # the "store is empty" branch of the sweep: a map.len immediately followed by an atomic.fetch_sub
     for a, b in zip(ev, ev[1:]):
-        if a == 'map.len' and b == 'atomic.fetch_sub':
+        if a == 'map.len' and b in ('atomic.fetch_sub', 'atomic.store'):
             hit_empty_reset = z3.BoolVal(True)
     return {
         'overwrite-double-count': z3.And(z3.BoolVal(cmd in STORES and s.rkind == R_OK), st.present[j], z3.Not(lazy)),
@@ -194,7 +194,8 @@ def run_c14_step(ck, tier, K=2):
 
 def bmc_system(ck, K, cmds):
     def extra(cmd, inp):
-        return handler_constraints(cmd, inp) + [z3.Not(visnum(inp.val))] + [z3.ULT(L, 1 << 40)]
+        # stated bound of the history checks: values up to 4 KiB, limits below 2^40 (keeps witnesses replayable)
+        return handler_constraints(cmd, inp) + [z3.Not(visnum(inp.val)), z3.ULE(vlen(inp.val), 4096)] + [z3.ULT(L, 1 << 40)]
     sysm = bmc.System(ck, K, cmds, policy='random', memory_limit=L, extra_assume=extra)
     for s in sysm.summaries:
         s.evicted = evicted_keys(s)
